@@ -22,9 +22,9 @@ type Engine struct {
 	fset    *token.FileSet
 	prog    *ssa.Program
 	pkgs    []*packages.Package
-	spkgs   map[string]*ssa.Package // by short name
-	specs   map[string]*SpecFile    // by short package name
-	ghosts  map[string]*GhostField  // "pkgpath.Type.field"
+	spkgs   map[string]*ssa.Package  // by short name
+	specs   map[string]*SpecFile     // by short package name
+	ghosts  map[string]*GhostField   // "pkgpath.Type.field"
 	funcs   map[string]*ssa.Function // "pkg.Recv.Name" -> generic function
 	wsets   map[*ssa.Function]*WriteSet
 	repoDir string
